@@ -87,8 +87,9 @@ void exec_nest(const J& plan) {
   LoadOpts co; co.L = L; co.deep_post = true; co.where = "calibration chain at depth L";
   co.runner = [&](const std::function<void()>& f) { size_t used = 0; prot_set_ctx("calibration pipeline at depth L (generous stack)"); sched_run_on_stack(((size_t)4 << 20) + (size_t)65536 * L, f, &used); if (used > used_max) used_max = used; };
   LoadOutcome c0 = checked_load(cal.data(), cal.size(), co, nullptr);
+  if (!c0.item && c0.ref.st == R_ITEM && c0.refused == 0) { fail("C19", "nesting-within-limit-rejected", fmt("a chain nested exactly L=%u levels deep was not decoded (code %d at %llu)", L, c0.code, (unsigned long long)c0.position)); return; }
   if (failed() || g_run.foreign_seen) return;
-  if (!c0.item) { fail("C19", "depth-L-rejected", fmt("a chain nested exactly L=%u levels deep was not decoded (code %d at %llu)", L, c0.code, (unsigned long long)c0.position)); return; }
+  if (!c0.item) return;
   if (used_max > (size_t)(1 << 20) + (size_t)32768 * L) {   // only a sanity bound: the property asks for proportionality, not for a constant
  fail("C19", "stack-use-not-proportional-to-L", fmt("decode/describe/size/serialize/copy/release of a depth-L tree used %zu bytes of native stack with L=%u", used_max, L)); return; }
   stat_max("max_stack_used_at_depth_L", used_max);
@@ -104,6 +105,8 @@ void exec_nest(const J& plan) {
     std::string where = fmt("L=%u, chain of %u level(s), %llu of %zu bytes arrived", L, levels, (unsigned long long)sent, stream.size()); o.where = where.c_str();
     g_log.ev("deliver", sz, sent);
     LoadOutcome r = checked_load(stream.data(), (size_t)sent, o, nullptr); calls++;
+    if (!r.item && r.ref.st == R_ITEM && r.refused == 0) fail("C19", "nesting-within-limit-rejected", where + fmt(": input nested %u <= L levels deep was not decoded (code %d at %llu)", r.ref.max_depth, r.code, (unsigned long long)r.position));
+    if (!r.item && r.ref.st == R_MEMERROR && r.refused == 0 && (r.code != CBOR_ERR_MEMERROR || r.position != r.ref.pos)) fail("C19", "excess-nesting-wrong-report", where + fmt(": expected MEMERROR just past the head opening level L+1 (offset %llu), got code %d at %llu", (unsigned long long)r.ref.pos, r.code, (unsigned long long)r.position));
     if (r.item) { accepted++; done = true; if (levels > L) fail("C19", "nesting-beyond-limit-accepted", where + fmt(": a chain nested %u levels deep was decoded although the limit is %u", levels, L)); }
     else if (r.ref.st == R_MEMERROR) { rejected_deep++; done = true; }
     else if (!r.nedata) done = true;
